@@ -97,7 +97,60 @@ def _block_of(st, pm):
 
 
 # ---------------------------------------------------------------------------
+def r16_2b(ctx: Ctx, rule="R16.2"):
+    """Routing of the reader loop: every line that is not a section header is appended, unchanged, to the header list
+    (before the first section) or to the current section (afterwards)."""
+    from ..pat import find as pfind
+    init = ctx.func("ItpFile.__init__")
+    loops = [n_ for n_ in walk_no_nested(init.node) if isinstance(n_, ast.For)]
+    if not loops:
+        ctx.ob(rule, init, "reader loop", True, "reader loop not recognised", undecided=True)
+        return
+    lp = loops[0]
+    lv = norm(lp.target)
+    cur = None
+    for s_ in walk_no_nested(lp):
+        if isinstance(s_, ast.Assign) and isinstance(s_.targets[0], ast.Name) and "findall" in norm(s_.value):
+            cur = s_.targets[0].id
+    n = 0
+    for p in enum_paths(lp.body):
+        is_header = None
+        sec_none = None
+        for t, o in p.conds():
+            tt, neg = t, False
+            while isinstance(tt, ast.UnaryOp) and isinstance(tt.op, ast.Not):
+                tt, neg = tt.operand, not neg
+            if isinstance(tt, ast.Call) and "match" in norm(tt.func) and "\\[" in norm(tt):
+                is_header = (o != neg)
+            if cur and norm(tt).replace(" ", "") == "%sisNone" % cur:
+                sec_none = (o != neg)
+            if cur and norm(tt).replace(" ", "") == "%sisnotNone" % cur:
+                sec_none = not (o != neg)
+        st = p.stmts()
+        h_app = [x for x in st if norm(x) == "self['header'].append(%s)" % lv]
+        s_app = [x for x in st if cur and norm(x) == "self[%s].append(%s)" % (cur, lv)]
+        n += 1
+        if is_header is None:
+            ctx.ob(rule, init, "loop path: %s" % p.describe()[:160], False, "every line is classified as section header or not", node=lp)
+        elif is_header:
+            ok = not h_app and not s_app and any(isinstance(x, ast.Assign) and norm(x.targets[0]) == cur for x in st)
+            ctx.ob(rule, init, "header-line path: %s" % p.describe()[:140], ok,
+                   "a `[ name ]` line only switches the current section (its text is not stored as a line)", node=lp)
+        else:
+            want_h = sec_none is True
+            ok = (len(h_app) == 1 and not s_app) if want_h else (len(s_app) == 1 and not h_app)
+            ok = ok and sec_none is not None
+            ctx.ob(rule, init, "ordinary-line path (%s): %s" % ("before the first section" if want_h else "inside a section", p.describe()[:120]),
+                   ok, "an ordinary line is appended, unchanged, to the header list before the first section and to the "
+                   "current section afterwards", node=lp)
+    ctx.floor(rule, n, 3, "paths of the reader loop")
+    # the header list exists from the start and is the first key
+    ctx.ob(rule, init, "header list initialised", bool(pfind(init.node, "self['header'] = []")) and bool(pfind(init.node, "%s = None" % cur)) if cur else False,
+           "the file object starts with an empty header list and no current section", node=init.node)
+
+
 def r16_2(ctx: Ctx):
+    r16_2b(ctx)
     app = ctx.func("ItpSection.append")
     sstr = ctx.func("ItpSection.__str__")
     wr = ctx.func("ItpFile.write")
